@@ -286,11 +286,12 @@ def strat_files(draw, tier):
     c["ffactor"] = draw(st.sampled_from(ff_opts))
     c["tfactor"] = draw(st.integers(1, 4))
     cps_opts = [k for k in range(2, nchans + 1) if (k * nbits) % 8 == 0] or [nchans]
-    cps = draw(st.sampled_from(cps_opts))
-    nb = draw(st.integers(1, nchans // cps))
+    cps = draw(st.sampled_from(cps_opts[:2] + cps_opts))
+    nb = draw(st.one_of(st.just(nchans // cps), st.integers(1, nchans // cps)))
     c["cps"], c["nsel"] = cps, nb * cps
     c["chanstart"] = draw(st.integers(0, nchans - nb * cps))
     c["chans"] = draw(st.lists(st.integers(0, nchans - 1), min_size=1, max_size=3, unique=True))
+    c["batch"] = draw(st.sampled_from([1, 2, 200]))
     return c
 
 
@@ -322,13 +323,18 @@ def check_files(case, ctx):
         except Exception:  # noqa: BLE001  value-domain problems of zero-DM are C07's business
             lab.append("zerodm_skipped")
     cs, nsel, cps = case["chanstart"], case["nsel"], case["cps"]
-    names = s.call("extract_bands", lambda: rd.extract_bands(cs, nsel, cps, s.out("b"), **s.kw))
+    batch = case.get("batch", 200)
+    names = s.call("extract_bands", lambda: rd.extract_bands(cs, nsel, cps, s.out("b"), batch_size=batch, **s.kw))
+    if nsel // cps > batch:
+        lab.append("bands_multi_batch")
     for i, name in enumerate(names[: nsel // cps]):
         s.file_meta("extract_bands", name, s.eff, cps, s.nbits, [[cs + i * cps + j] for j in range(cps)])
     if cs > 0:
         lab.append("selection_offset>0")
     chans = case["chans"]
-    names = s.call("extract_chans", lambda: rd.extract_chans(np.array(chans), s.out("c"), **s.kw))
+    names = s.call("extract_chans", lambda: rd.extract_chans(np.array(chans), s.out("c"), batch_size=batch, **s.kw))
+    if len(chans) > batch:
+        lab.append("chans_multi_batch")
     for ch, name in zip(chans, names):
         pf = sigfile.parse_file(name)
         require(pf["hdr"].get("nbits") == 32 and pf["size"] - pf["hdrlen"] == 4 * s.eff, "extract_chans:nbits-vs-width",
